@@ -532,6 +532,12 @@ func runDiscoveryCase(c DiscoveryCase) []ev.Violation {
 	take := func() *observation { return observe(w, reg, uni) }
 	prev := take()
 	nt := false
+	defer func() {
+		if nt {
+			b, _ := json.Marshal(c)
+			rec.NT("D|" + string(b))
+		}
+	}()
 	var hist []string
 	for _, st := range c.Steps {
 		hist = append(hist, st.String())
@@ -568,6 +574,7 @@ func runDiscoveryCase(c DiscoveryCase) []ev.Violation {
 		var passing []string
 		emptyPasses := false
 		collision := false
+		collName := map[string]bool{} // listed names whose memo keys another (name, pattern) pair also produces
 		if !st.Fail {
 			for _, n := range st.Listing {
 				ok := f == nil || refMatches(f.Include, f.Exclude, n)
@@ -575,6 +582,7 @@ func runDiscoveryCase(c DiscoveryCase) []ev.Violation {
 					l := Lookup{Name: n, Include: f.Include, Exclude: f.Exclude}
 					if collides(seen, l) {
 						collision = true
+						collName[n] = true
 					}
 					remember(seen, l)
 					if strings.Contains(n, "::") || strings.Contains(strings.Join(l.patterns(), " "), "::") {
@@ -629,7 +637,6 @@ func runDiscoveryCase(c DiscoveryCase) []ev.Violation {
 			continue
 		}
 		if dropsSharedNames(ref, st.EP, passing) {
-			nt = nt || false
 			rec.Class("discovery-step=shared-model-dropped")
 		}
 		ref.beginStep()
@@ -653,22 +660,42 @@ func runDiscoveryCase(c DiscoveryCase) []ev.Violation {
 						listingWrong = true
 					}
 				}
-				if listingWrong && freshOK {
-					sig := "discovery-filter-history-dependent"
-					if collision {
+				if listingWrong {
+					// which listed names did the service's filter decide differently?
+					held := map[string]bool{}
+					for _, n := range o.Listing[epURLs[st.EP]] {
+						held[n] = true
+					}
+					pass := map[string]bool{}
+					for _, n := range passing {
+						pass[n] = true
+					}
+					explained := true
+					var wrong []string
+					for _, n := range st.Listing {
+						if held[n] != pass[n] {
+							wrong = append(wrong, n)
+							if !collName[n] {
+								explained = false
+							}
+						}
+					}
+					sig := "discovery-filter-mismatch"
+					switch {
+					case len(wrong) == 0:
+						return vs // the difference is not about a name of this listing: not a filter matter
+					case !freshOK:
+						sig = "discovery-filter-semantics"
+					case explained:
 						sig = sigGlobCollision
 					}
-					return []ev.Violation{{Sig: sig, Detail: fmt.Sprintf("after discovering ep%d (listing %q, filter include=%q exclude=%q) the registry holds %q; a fresh GlobFilter and the documented semantics pass exactly %q | history: %s",
-						st.EP, st.Listing, f.Include, f.Exclude, o.Listing[epURLs[st.EP]], passing, hs)}}
+					return []ev.Violation{{Sig: sig, Detail: fmt.Sprintf("after discovering ep%d (listing %q, filter include=%q exclude=%q) the registry holds %q; the documented semantics pass exactly %q (a fresh GlobFilter per name agrees with them: %v; names decided differently: %q) | history: %s",
+						st.EP, st.Listing, f.Include, f.Exclude, o.Listing[epURLs[st.EP]], passing, freshOK, wrong, hs)}}
 				}
 			}
 			return vs
 		}
 		prev = o
-	}
-	if nt {
-		b, _ := json.Marshal(c)
-		rec.NT("D|" + string(b))
 	}
 	rec.Sample(c)
 	return nil
